@@ -44,7 +44,7 @@ func lifecycleOracleOn(c *Ctx, evs []vh.Event, cfgExtensions []string) {
 	}
 	var episodes []*episode
 	var cur *episode
-	curReq := ""        // request id announced by SetCurrentRequestID
+	curReq := "" // request id announced by SetCurrentRequestID
 	started := map[string]int{}
 	done := map[string]int{}
 	invokeOpen := false // between SetCurrentRequestID and the next one
@@ -118,12 +118,12 @@ func lifecycleOracleOn(c *Ctx, evs []vh.Event, cfgExtensions []string) {
 	// ---- truthfulness ----
 	// index party calls
 	type call struct {
-		src, op   string
-		callSeq   int64
-		retSeq    int64
-		status    int
-		extra     map[string]string
-		id        string
+		src, op string
+		callSeq int64
+		retSeq  int64
+		status  int
+		extra   map[string]string
+		id      string
 	}
 	var calls []*call
 	open := map[int64]*call{}
